@@ -244,6 +244,7 @@ Lemma doc_frompil_planes_fit c img :
   header_ok (fst hp) /\ planes_fit (fst hp) (snd hp) /\ Forall bytes (snd hp) /\
   h_w (fst hp) = r_w img /\ h_h (fst hp) = r_h img /\ h_depth (fst hp) = 8.
 Proof.
+  clear conv_same conv_alpha.
   intros (Hw0 & Hh0 & Hlen & Hall) Hw Hh Hm.
   destruct img as [m w h bands]. cbn [r_mode r_w r_h r_bands] in *.
   unfold doc_frompil_planes.
@@ -296,6 +297,7 @@ Lemma topil_of_frompil_planes c img :
   | _ => img
   end.
 Proof.
+  clear conv_same conv_alpha.
   intros Himg Hw Hh Hm hp.
   destruct (doc_frompil_planes_fit c img Himg Hw Hh Hm) as (Hok & Hfit & _).
   pose proof (doc_export_spec conv c RAW img Himg Hw Hh Hm) as Hs.
@@ -325,6 +327,7 @@ Theorem doc_import_export_through_file : forall pad cfg0 img c d d1 bs n,
       | _ => img
       end.
 Proof.
+  clear conv_same conv_alpha.
   intros pad cfg0 img c d d1 bs n Hpad Himg Hw Hh Hm hp Ew Eh Ec Ed HS Hwf HW.
   destruct (doc_frompil_planes_fit cfg0 img Himg Hw Hh Hm) as (Hok & [Hn Hsz] & Hb & Ew' & Eh' & Ed').
   unfold hp in *. clear hp.
